@@ -81,6 +81,7 @@ class _Reject(Contract):
     abstract = True
     self_class = ("py7zr.py7zr", "SevenZipFile")
     track_raises = True
+    opaque = ("py7zr:SevenZipFile._make_file_info_from_name",)  # its own contract: MakeFileInfoFromName below; here an unknown callee
     pure = ("str", "encode", "bytes")
     stable_attrs = ("header", "files_info", "files", "emptyfiles", "worker", "fp")
 
